@@ -227,7 +227,7 @@ contract(FB, "RuleDBBase.rules_up_to_equivalence", props=["C05"], verify=False,
 _FIND = "EquivalenceDB.__getitem__"
 contract(FB, "RuleDBBase.pruned_dict", props=["C05"],
          params={"self": Obj("RuleDBBase")}, returns=RulesDict, requires=["wf(self.equivdb)"],
-         ensures=["not is_none(self._pruned_dict) and same(result, val(self._pruned_dict))",
+         ensures=["wf(self.equivdb)", "not is_none(self._pruned_dict) and same(result, val(self._pruned_dict))",
                   # a cached dictionary is served as is
                   "implies(not old(is_none(self._pruned_dict)), same(result, old(val(self._pruned_dict))))"],
          call_requires={
@@ -249,7 +249,9 @@ contract(FB, "RuleDBBase.pruned_dict", props=["C05"],
 contract(FB, "RuleDBBase.has_specification", props=["C05"],
          params={"self": Obj("RuleDBBase")}, returns=Bool, requires=["wf(self.equivdb)"],
          ensures=[f'result == (last_result("{_FIND}") in val(self._pruned_dict))',
-                  f'last_arg("{_FIND}", 1) == root_label_of(self)'],
+                  f'last_arg("{_FIND}", 1) == root_label_of(self)',
+                  # the representative is asked for only after the pruned dictionary (hence the equivalences) is up to date
+                  f'called_after("{_FIND}", "RuleDBBase.pruned_dict")'],
          modifies=["self._pruned_dict", "all:Obj('EquivalenceDB')", "all:Dict(Int, Int)", "all:Set(Int)",
                    "all:DefaultDict(Int, Set(Int))", "all:Set(Seq(Int))", "all:Dict(Int, Set(Seq(Int)))"],
          notes="a specification exists iff the representative of the start label survives in the pruned dictionary")
